@@ -359,6 +359,7 @@ theorem pre_ready_of_false (st : St) (e : Ev) (h : (pre st e).2 = false) : (pre 
   | close => simp only [pre] at h; split at h <;> cases h
   | lost => simp only [pre] at h; cases h
   | setReset b => rfl
+  | connect => simp only [pre]; split <;> rfl
 
 /-- **after every event the loop is at rest** -/
 theorem rest_step (st : St) (e : Ev) (hg : Good st) (hq : st.ready = []) : (step st e).ready = [] := by
@@ -390,5 +391,65 @@ theorem rest_ticks (k : Nat) (st : St) (hg : Good st) (hq : st.ready = []) : (ti
   induction k generalizing st with
   | zero => exact hq
   | succ k ih => exact ih _ (good_step st .tick hg) (rest_step st .tick hg hq)
+
+/-! ### the connection counter -/
+
+theorem gen_pre (st : St) (e : Ev) (hne : e ≠ .connect) : (pre st e).1.gen = st.gen := by
+  cases e with
+  | start id key blocking nfrags timeout =>
+    simp only [pre]
+    split
+    · rfl
+    · split <;> rfl
+  | rxAck k => simp only [pre]; split <;> rfl
+  | rxRsp key =>
+    simp only [pre]
+    generalize hst1 : (if ({ st with out := [] } : St).transport = true then emit ({ st with out := [] } : St) Out.wack else ({ st with out := [] } : St)) = st1
+    have h1 : st1.gen = st.gen := by rw [← hst1]; split <;> rfl
+    cases st1.listeners.find? (fun l => l.2 == key) with
+    | none => exact h1
+    | some p =>
+      obtain ⟨i, k⟩ := p
+      simp only []
+      split <;> exact h1
+  | tick =>
+    simp only [pre]
+    cases nextDeadline ({ st with out := [] } : St) with
+    | none => rfl
+    | some d => simp only []; rw [(frame_foldl_unwind _ _ _).gen]
+  | cancel id =>
+    simp only [pre]
+    cases getReq ({ st with out := [] } : St) id with
+    | none => rfl
+    | some r =>
+      simp only []
+      split
+      · rfl
+      · rw [(frame_unwind _ _ _).gen]
+  | close => simp only [pre]; split <;> split <;> rfl
+  | lost => simp only [pre]; split <;> rfl
+  | setReset b => rfl
+  | connect => exact absurd rfl hne
+
+theorem gen_step (st : St) (e : Ev) (hne : e ≠ .connect) : (step st e).gen = st.gen := by
+  rw [step_eq_pre]
+  cases (pre st e).2
+  · exact gen_pre st e hne
+  · show (settle _ (pre st e).1).gen = st.gen
+    rw [(frame_settle _ _).gen]; exact gen_pre st e hne
+
+/-- a history without `connect()` stays on the first connection -/
+theorem gen_zero (evs : List Ev) (hnc : ∀ e ∈ evs, e ≠ .connect) : (runEvents {} evs).1.gen = 0 := by
+  unfold runEvents
+  rw [runEvents_fst]
+  have : ∀ (evs : List Ev) (st : St), (∀ e ∈ evs, e ≠ .connect) → (evs.foldl step st).gen = st.gen := by
+    intro evs
+    induction evs with
+    | nil => intro st _; rfl
+    | cons e es ih =>
+      intro st h
+      simp only [List.foldl_cons]
+      rw [ih _ (fun x hx => h x (List.mem_cons_of_mem _ hx)), gen_step st e (h e (List.mem_cons_self ..))]
+  exact this evs {} hnc
 
 end Zboss.Host
